@@ -1,0 +1,102 @@
+//go:build verif
+
+package part
+
+import (
+	"fmt"
+	"strings"
+)
+
+// VerifLayout lists the raw physical layout of every inner node below root in
+// pre-order, one string per node:
+//
+//	<path> k<kind> s<size> l<0|1> keys=<hex of the whole keys array> ch=<per slot: key of the child or ..> idx=<key:index,...>
+//
+// where <path> is the hex of the key bytes leading to the node (its own prefix
+// included), kind is 4, 16, 48 or 256, "keys" is the complete keys array of a
+// node4/node16 (unused slots included), "ch" has one entry per slot of the
+// children array ("--" for nil, otherwise the hex of the child's key byte) and
+// "idx" lists the non-zero entries of a node48's index array. Only used by
+// the verification harness to compare the node layouts with their model.
+func VerifLayout[T any](root *header[T]) []string {
+	var out []string
+	var walk func(n *header[T], path []byte)
+	walk = func(n *header[T], path []byte) {
+		if n == nil || n.isLeaf() {
+			return
+		}
+		path = append(append([]byte{}, path...), n.prefix()...)
+		var b strings.Builder
+		hasLeaf := 0
+		if n.getLeaf() != nil {
+			hasLeaf = 1
+		}
+		fmt.Fprintf(&b, "%x k%d s%d l%d keys=", path, n.cap(), n.size(), hasLeaf)
+		var slots []*header[T]
+		switch n.kind() {
+		case nodeKind4:
+			n4 := n.node4()
+			fmt.Fprintf(&b, "%x", n4.keys[:])
+			slots = n4.children[:]
+		case nodeKind16:
+			n16 := n.node16()
+			fmt.Fprintf(&b, "%x", n16.keys[:])
+			slots = n16.children[:]
+		case nodeKind48:
+			slots = n.node48().children[:]
+		case nodeKind256:
+			slots = n.node256().children[:]
+		}
+		b.WriteString(" ch=")
+		for _, c := range slots {
+			if c == nil {
+				b.WriteString("--")
+			} else {
+				fmt.Fprintf(&b, "%02x", c.key())
+			}
+		}
+		b.WriteString(" idx=")
+		if n.kind() == nodeKind48 {
+			first := true
+			for k, i := range n.node48().index {
+				if i != 0 {
+					if !first {
+						b.WriteString(",")
+					}
+					first = false
+					fmt.Fprintf(&b, "%02x:%d", k, i)
+				}
+			}
+		}
+		out = append(out, b.String())
+		for _, c := range slots {
+			walk(c, path)
+		}
+	}
+	walk(root, nil)
+	return out
+}
+
+// VerifTreeLayout is VerifLayout of a committed tree.
+func VerifTreeLayout[T any](t *Tree[T]) []string { return VerifLayout(t.root) }
+
+// VerifTxnLayout is VerifLayout of the transaction's current root.
+func VerifTxnLayout[T any](txn *Txn[T]) []string { return VerifLayout(txn.root) }
+
+// VerifFind and VerifFindIndex run the node-level child lookups (node.go find,
+// findIndex) on the root node of the transaction: found, and for findIndex the
+// slot index it reports.
+func VerifFind[T any](txn *Txn[T], key byte) bool {
+	if txn.root == nil || txn.root.isLeaf() {
+		return false
+	}
+	return txn.root.find(key) != nil
+}
+
+func VerifFindIndex[T any](txn *Txn[T], key byte) (bool, int) {
+	if txn.root == nil || txn.root.isLeaf() {
+		return false, 0
+	}
+	c, i := txn.root.findIndex(key)
+	return c != nil, i
+}
